@@ -144,6 +144,13 @@ CHECKS = {
                       'with the same item as find(); size()/empty() equal the number of present keys where an item counter is configured; EllenBinTree and BronsonAVLTreeMap check_consistency() (search-tree order, AVL balance, witness of the imbalanced node)',
         'level_note': 'trusted base as C13; split-order of SplitList traversal and the per-level ordering of skip-list towers are not inspected (would need protected members); trees without iterators are checked through check_consistency() and lookups only',
     },
+    'C19': {
+        'technique': 'runtime monitoring: an iterating thread records every yielded element (touching the current element repeatedly) while updaters run; completeness / multiplicity / order oracle over keys surely present for the whole pass; per-key WGL incl. erase_at as "remove exactly this item"; destroyed-item poison check and ASan',
+        'level_text': 'Passes over IterableList (HP/DHP), MichaelHashSet and SplitListSet over IterableList, FeldmanHashSet (HP/DHP/RCU, forward and reverse, keys sharing a 12-bit prefix so array nodes split under the iterator): the current element never carries the destructor poison '
+                      '(never freed under ASan); every key present throughout and never removed/replaced is yielded exactly once (Iterable-based) / at least once (Feldman), in increasing order for IterableList; every yielded item was inserted for its key; '
+                      'erase_at(iterator) histories are linearizable with erase_at meaning "remove exactly this item or return false if it is gone". Found and fixed: F16',
+        'level_note': LIN_NOTE + '; the order of transient keys is not constrained (IterableList may yield e.g. 5,3 when 5 is erased and 3 inserted into a vacated later node during the pass); Feldman erase_at is not exposed by the container form and is not driven',
+    },
     'C20': {
         'technique': 'runtime monitoring by model-based differential execution: single-threaded random call sequences on every container variant of the other harnesses, every result checked against the executable sequential reference model; ASan/UBSan/LSan',
         'level_text': 'All 270 container variants of the C06-C11 and C13-C16 harnesses (queues, bounded queues, stacks, deque, priority queues; lists, hash sets, skip lists, trees, cuckoo/striped sets) are driven by one thread with seeded sequences of 1-200 calls '
